@@ -151,4 +151,125 @@ theorem saveHdr0_idem (o : Obj) (hd : Bytes) (x : Nat) (hl : ehdrSize o.cls ≤ 
   rw [eC, ← hhT]
   rw [set_set .shoff c e h0 x 0 lh0, ← hh0, set_set .shoff c e c1 0 0 lc1]
 
+theorem orderedSegments_nil : orderedSegments [] = .ok [] := rfl
+
+/-- `save` of an object without segments, in closed form -/
+theorem save_noseg_eq {o : Obj} {os : OStream} {hd : Bytes} (hseg : o.segs = []) (hh : o.hdr = some hd)
+    (hf : os.fail = false) :
+    save o os = .ok (saveTail (preRes o) os (saveHdr0 (preRes o) hd) []
+      (saveLay0 (preRes o) (saveHdr0 (preRes o) hd)) []) := by
+  rw [save_eq, hh]
+  simp only [hf, Bool.false_eq_true, if_false]
+  have e : (preRes o).segs = [] := hseg
+  rw [e]
+  simp only [List.mapM_nil, pure_bind, orderedSegments_nil]
+  rfl
+
+/-- `saveTail` reads of the object only class, byte order, translation and stream, and of the
+    layout only what the loose-section pass makes of it -/
+theorem saveTail_congr {o o' : Obj} {os : OStream} {h0 : Bytes} {segs1 done : List Seg} {lay lay' : Layout}
+    (hc : o'.cls = o.cls) (he : o'.enc = o.enc) (ht : o'.trans = o.trans) (hs : o'.stream = o.stream)
+    (hl : layoutLoose o.cls (putBack segs1 done) lay'.secs 0 lay'.pos [] =
+      layoutLoose o.cls (putBack segs1 done) lay.secs 0 lay.pos []) :
+    saveTail o' os h0 segs1 lay' done = saveTail o os h0 segs1 lay done := by
+  unfold saveTail
+  simp only [hc, he, ht, hs, hl]
+
+theorem preRes_id (o : Obj) (h : ∀ b ∈ o.secs, b.Settled) : preRes o = o := by
+  unfold preRes
+  rw [allResident_id _ _ _ _ _ h]
+  simp
+
+theorem preRes_settled (o : Obj) : ∀ b ∈ (preRes o).secs, b.Settled :=
+  allResident_settled _ _ _ _ [] (fun b hb => by cases hb)
+
+theorem saveHdr0_congr {o o' : Obj} (hc : o'.cls = o.cls) (he : o'.enc = o.enc)
+    (hg : o'.segs.length = o.segs.length) (hs : o'.secs.length = o.secs.length) (h : Bytes) :
+    saveHdr0 o' h = saveHdr0 o h := by
+  unfold saveHdr0
+  simp only [hc, he, hg, hs]
+
+/-- **save_twice_no_segments** : for an object without segments, a successful `save` leaves an
+    object on which `save` (into the same initial stream) does exactly the same again — same result
+    object, same stream, hence identical bytes.  (The loose-section layout is a function of types,
+    sizes, alignments and indices only; the header preparation is idempotent; every section is
+    resident after the first save.)  Hypothesis: the header buffer has the size of the class's ELF
+    header (true of every created or loaded object). -/
+theorem save_twice_no_segments {o : Obj} {os : OStream} {r : SaveRes} {hd : Bytes} (hseg : o.segs = [])
+    (hh : o.hdr = some hd) (hl : ehdrSize o.cls ≤ hd.length) (hs : save o os = .ok r) (hok : r.ok = true) :
+    save r.obj os = .ok r := by
+  obtain ⟨_, _, _, _, _, _, hf, _, _, _, _⟩ := save_ok_unfold hs hok
+  rw [save_noseg_eq hseg hh hf] at hs
+  injection hs with hs
+  subst hs
+  obtain ⟨_, eobj, _, _⟩ := saveTail_ok hok
+  -- names
+  generalize ho1 : preRes o = o1 at *
+  have hset1 : ∀ b ∈ o1.secs, b.Settled := by rw [← ho1]; exact preRes_settled o
+  have hc1 : o1.cls = o.cls := by rw [← ho1]; rfl
+  have hseg1 : o1.segs = [] := by rw [← ho1]; exact hseg
+  generalize hh0 : saveHdr0 o1 hd = h0 at *
+  generalize hlay : saveLay0 o1 h0 = lay0 at *
+  have hlsecs : lay0.secs = o1.secs := by rw [← hlay]; rfl
+  have hlpos : lay0.pos = savePos0 o1 h0 := by rw [← hlay]; rfl
+  -- the loose pass and the residency pass of the first save
+  obtain ⟨L, eL, fL⟩ := layoutLoose_frame o1.cls (putBack [] []) lay0.secs 0 lay0.pos []
+  simp only [List.reverse_nil, List.nil_append] at eL
+  rw [hlsecs] at fL
+  have hsetL : ∀ b ∈ L, b.Settled := fL.forall_right (fun a b h ha => Placed.settled h ha) hset1
+  have eS : tailSecs o1 [] lay0 [] = L := by
+    unfold tailSecs tailLoose
+    rw [eL, residentForSave_id _ _ _ _ _ hsetL]; rfl
+  have eSt : (residentForSave o1.cls o1.trans (tailLoose o1 [] lay0 []).1 { st := o1.stream } []).2.st = o1.stream := by
+    unfold tailLoose
+    rw [eL, residentForSave_id _ _ _ _ _ hsetL]
+  rw [eS, eSt] at eobj
+  -- the second save
+  generalize hT : saveTail o1 os h0 [] lay0 [] = T at *
+  have hseg' : T.obj.segs = [] := by rw [eobj]; rfl
+  have hh' : T.obj.hdr = some (tailHdr o1 h0 [] lay0 []) := by rw [eobj]
+  rw [save_noseg_eq hseg' hh' hf]
+  have hset' : ∀ b ∈ T.obj.secs, b.Settled := by rw [eobj]; exact hsetL
+  rw [preRes_id _ hset']
+  have ec : T.obj.cls = o1.cls := by rw [eobj]
+  have ee : T.obj.enc = o1.enc := by rw [eobj]
+  have et : T.obj.trans = o1.trans := by rw [eobj]
+  have es : T.obj.stream = o1.stream := by rw [eobj]
+  have esecs : T.obj.secs = L := by rw [eobj]
+  have eh : saveHdr0 T.obj (tailHdr o1 h0 [] lay0 []) = h0 := by
+    rw [saveHdr0_congr ec ee (by rw [hseg', hseg1]) (by rw [esecs, fL.1])]
+    unfold tailHdr
+    rw [← hh0]
+    exact saveHdr0_idem o1 hd _ (by rw [hc1]; exact hl)
+  rw [eh]
+  congr 1
+  refine (saveTail_congr ec ee et es ?_).trans hT
+  -- the loose pass is idempotent
+  show layoutLoose o1.cls (putBack [] []) T.obj.secs 0 (savePos0 T.obj h0) [] = _
+  have ep : savePos0 T.obj h0 = savePos0 o1 h0 := by unfold savePos0; rw [ec, ee]
+  rw [ep, esecs, hlsecs, hlpos, layoutLoose_eq, layoutLoose_eq]
+  have eL' : L = (looseSpec o1.cls (putBack [] []) o1.secs 0 (savePos0 o1 h0)).1 := by
+    rw [← eL, hlsecs, hlpos, layoutLoose_eq]; rfl
+  rw [eL', looseSpec_idem]
+
+/-- the byte-level reading: both saves succeed and write identical bytes -/
+theorem save_twice_no_segments_bytes {o : Obj} {os : OStream} {r : SaveRes} {hd : Bytes} (hseg : o.segs = [])
+    (hh : o.hdr = some hd) (hl : ehdrSize o.cls ≤ hd.length) (hs : save o os = .ok r) (hok : r.ok = true) :
+    ∃ r2, save r.obj os = .ok r2 ∧ r2.ok = true ∧ r2.os.content = r.os.content ∧
+      save r2.obj os = .ok r2 :=
+  ⟨r, save_twice_no_segments hseg hh hl hs hok, hok, rfl, save_twice_no_segments hseg hh hl hs hok⟩
+
+/-- non-vacuity: a created object with a `.text` section (no segments) meets the hypotheses and its
+    save succeeds -/
+def nosegObj : M Obj := do
+  let o ← create {} .c32 .msb
+  let o ← sectionsAdd o [0x2e, 0x74, 0x65, 0x78, 0x74]
+  let o := updSec o 2 fun b => { b with stype := 1, flags := 6, addrAlign := 16 }
+  updSecM o 2 fun b => b.setData (some [1, 2, 3, 4, 5]) 5
+
+example : (match nosegObj with
+    | .ok o => o.segs.isEmpty && (match o.hdr with | some hd => decide (ehdrSize o.cls ≤ hd.length) | none => false) &&
+        (match save o {} with | .ok r => r.ok | .error _ => false)
+    | .error _ => false) = true := by decide +kernel
+
 end ElfioVerif.C06
